@@ -199,7 +199,9 @@ def make_handler():
         iface = interface.DBusInterface('org.example.T', interface.Method('M'), interface.Property('P', 's'),
                                         interface.Property('W', 's', readable=False, writeable=True),
                                         interface.Property('Count', 'u', writeable=True), interface.Property('Enabled', 'b'),
-                                        interface.Property('Label', 's'), interface.Property('Tags', 'as'))
+                                        interface.Property('Label', 's'), interface.Property('Tags', 'as'),
+                                        # declared here, bound only by the derived class below
+                                        interface.Property('Extra', 's'))
         iface2 = interface.DBusInterface('org.example.U', interface.Method('N'), interface.Property('Q', 'i'))
         dbusInterfaces = [iface, iface2]
         P = objects.DBusProperty('P')
@@ -226,10 +228,16 @@ def make_handler():
         iface3 = interface.DBusInterface('org.example.V', interface.Method('K'), interface.Property('R', 's'))
         dbusInterfaces = [iface3]
         R = objects.DBusProperty('R', 'org.example.V')
+        # one more property of the BASE class's interface bound here: the object has it besides the ones its base class binds
+        Extra = objects.DBusProperty('Extra', 'org.example.T')
 
         def __init__(self, path):
             Obj.__init__(self, path)
             self.R = 'derived'
+            self.Extra = 'extra'
+
+        def __len__(self):
+            return 0            # an exported object may be an empty container: it is exported all the same
 
     c = Conn()
     return objects.DBusObjectHandler(c), c, (Obj, Derived)
@@ -239,6 +247,7 @@ def want_ifs_of(o):
     w = {'org.example.T': {'P': 'value', 'Count': 0, 'Enabled': False, 'Label': '', 'Tags': []}, 'org.example.U': {'Q': -1}}
     if (o if isinstance(o, str) else type(o).__name__) == 'Derived':
         w['org.example.V'] = {'R': 'derived'}
+        w['org.example.T']['Extra'] = 'extra'
     return w
 
 
@@ -356,7 +365,7 @@ def changed_property_case():
     if len(conn.sent) != 1 or getattr(conn.sent[0], 'error_name', None):
         return 'GetManagedObjects(/a) after property changes: %r' % [getattr(m, 'error_name', None) for m in conn.sent]
     got = conn.sent[0].body[0].get('/a/b', {})
-    want = {'org.example.T': {'P': 'changed', 'Count': 5, 'Enabled': False, 'Label': '', 'Tags': ['t']}, 'org.example.U': {'Q': -1}, 'org.example.V': {'R': 'derived, later'}}
+    want = {'org.example.T': {'P': 'changed', 'Count': 5, 'Enabled': False, 'Label': '', 'Tags': ['t'], 'Extra': 'extra'}, 'org.example.U': {'Q': -1}, 'org.example.V': {'R': 'derived, later'}}
     got = {k: v for k, v in got.items() if k.startswith('org.example.')}
     if got != want:
         return 'GetManagedObjects(/a) after /a/b had P, Tags, R assigned and Count Set remotely reports %r, the current readable properties are %r' % (got, want)
